@@ -117,8 +117,10 @@ theorem bindFuel_le_slack (reg : Registry) (root : Mod) (inner : List Stmt) (hro
   have hT := Goyang.Lemmas.Fuel.tracked_le_total reg
   have hle := Goyang.Lemmas.Fuel.entryNeed_le_entryFuel reg
   have hW : width reg root = maxSubs (reg.mods.map (·.stmt)) := by
-    unfold width maxSubs
-    exact Nat.max_eq_right (le_maxSubs (List.mem_map_of_mem hroot))
+    have hle : root.stmt.subs.length ≤ maxSubs (reg.mods.map (·.stmt)) :=
+      le_maxSubs (List.mem_map_of_mem (f := (·.stmt)) hroot)
+    show max root.stmt.subs.length (maxSubs (reg.mods.map (·.stmt))) = _
+    exact Nat.max_eq_right hle
   have hM1 : 1 ≤ reg.mods.length := List.length_pos_of_mem hroot
   unfold bindFuel
   rw [hW]
